@@ -109,6 +109,8 @@ struct CtlInner {
     next_seq: u64,
     faults: Vec<Fault>,
     per_actor: HashMap<String, u64>,
+    /// actors of a crashed "process": their requests never complete
+    dead: std::collections::HashSet<String>,
     global_count: u64,
     /// delete observer: called with (path) at the instant a DELETE is applied
     hooks_enabled: bool,
@@ -178,6 +180,17 @@ impl Ctl {
                 let _ = p.tx.send(Release::Proceed);
             }
         }
+    }
+    /// Crash of a process: every actor whose name starts with `prefix` stops issuing requests
+    /// (parked requests of those actors are dropped, later ones never complete).
+    pub fn kill_actors(&self, prefix: &str) {
+        let mut g = self.inner.lock();
+        let names: Vec<String> = g.per_actor.keys().filter(|a| a.starts_with(prefix)).cloned().collect();
+        for n in names {
+            g.dead.insert(n);
+        }
+        g.dead.insert(prefix.to_string());
+        g.parked.retain(|p| !p.info.actor.starts_with(prefix));
     }
     pub fn set_hooks(&self, on: bool) {
         self.inner.lock().hooks_enabled = on;
@@ -270,6 +283,10 @@ impl Ctl {
         payload: Option<Bytes>,
         len: usize,
     ) -> (u64, Release) {
+        if self.inner.lock().dead.contains(actor) {
+            // a request of a crashed process: it is never issued
+            std::future::pending::<()>().await;
+        }
         let (req, planned, rx) = {
             let mut g = self.inner.lock();
             let req = g.next_req;
@@ -329,7 +346,14 @@ impl Ctl {
         };
         let mut decision = Release::Proceed;
         if let Some(rx) = rx {
-            decision = rx.await.unwrap_or(Release::Proceed);
+            decision = match rx.await {
+                Ok(d) => d,
+                Err(_) => {
+                    // the gate entry was dropped: the issuing process has crashed
+                    std::future::pending::<()>().await;
+                    Release::Proceed
+                }
+            };
         }
         if decision == Release::Proceed {
             if let Some(m) = planned {
